@@ -254,7 +254,7 @@ def case_oracle(case, *, cexec=False):
         try:
             vd = evaluate(gd, env)
             vt = evaluate(gt, env)
-        except (RefOutOfBounds, RefUnsupported) as e:
+        except Exception as e:  # noqa: BLE001 (a broken graph is a finding)
             return Failure("uninterpretable", str(e), "refeval"), info
         for key, idx in case["outputs"]:
             msg = compare_values(vd[key], npref.coerce(ref[idx],
@@ -280,7 +280,7 @@ def case_oracle(case, *, cexec=False):
                            "NamedCallResult nodes remain", "inline_calls"), info
         try:
             vi = evaluate(gi, env)
-        except (RefOutOfBounds, RefUnsupported) as e:
+        except Exception as e:  # noqa: BLE001 (a broken graph is a finding)
             return Failure("inlined-uninterpretable", str(e), "refeval"), info
         msg = _same(vd, vi)
         if msg:
